@@ -429,6 +429,24 @@ def main():
             if abs(got - want) > 1e-9 * (1 + abs(want)):
                 out["errors"].append({"kind": "keyword-dependency", "program": name, "mode": mode,
                                       "error": "d/dx = %r, true %r: the dependency through the keyword argument was dropped or mangled" % (got, want)})
+    # a sub-function wrapped by checkpoint (several arguments, keyword constants other than the defaults) composes like the
+    # plain sub-function
+    from autograd import checkpoint as _ckpt
+    def sub(u, w, scale=1.0, shift=0.0):
+        return _anp.sum(u * w) * scale + shift * _anp.sum(u)
+    csub = _ckpt(sub)
+    for kw in ({}, {"scale": 3.0}, {"scale": 2.0, "shift": 5.0}, {"shift": -1.0}):
+        for nm, prog in (("u and w traced", lambda x, s_: s_(x * 2.0, x * x, **kw) * x[0]), ("only w traced", lambda x, s_: s_(c3, x * x, **kw)),
+                         ("twice", lambda x, s_: s_(x, x, **kw) + s_(x * x, c3, **kw))):
+            out["dist"]["checkpointed-subfunction"] = out["dist"].get("checkpointed-subfunction", 0) + 1
+            try:
+                want = onp.asarray(_g2(lambda x: prog(x, sub))(c3))
+                got = onp.asarray(_g2(lambda x: prog(x, csub))(c3))
+                if not onp.all(got == want):
+                    out["errors"].append({"kind": "checkpointed-subfunction", "program": nm, "kwargs": kw,
+                                          "error": "gradient %s with the sub-function checkpointed, %s without" % (got.tolist(), want.tolist())})
+            except Exception as ex:
+                out["errors"].append({"kind": "checkpointed-subfunction", "program": nm, "kwargs": kw, "error": "raised %r" % (ex,)})
     # graphs far deeper than Python's recursion limit (a loop of several thousand steps, a deep chain with skip
     # edges): the passes are iterative, so depth is only a matter of memory
     import sys as _sys
